@@ -156,6 +156,31 @@ def registry(rng, srng=None):
     add('evaluation.accuracy_knee', ev.accuracy_knee, pts, knees)
     add('evaluation.get_neighbourhood', ev.get_neighbourhood, x, y, n - 2, 1)
     add('evaluation.get_neighbourhood_fast', ev.get_neighbourhood_fast, x, y, n - 2, 1)
+    # the remaining public functions (every function of the package appears in the registry)
+    import uts.gradient as _grad
+    add('dfdt.get_knee_gradient', df.get_knee_gradient, np.asarray(_grad.cfd(x, y), float))
+    add('evaluation.get_neighbourhood_binary', ev.get_neighbourhood_binary, x, y, n - 2, 1)
+    add('evaluation.get_neighbourhood_points', ev.get_neighbourhood_points, pts, n - 2, 1, 0.9)
+    add('evaluation.get_neighbourhood_fast_points', ev.get_neighbourhood_fast_points, pts, n - 2, 1, 0.9)
+    add('knee_ranking.rect', kr.rect, pts[0], pts[2])
+    add('kneedle.differences', kn.differences, pts, kn.Direction.Decreasing, kn.Concavity.Counterclockwise)
+    add('linear_fit.angle', lf.angle, coef, (coef[0] + 1.0, coef[1] - 0.5))
+    add('linear_fit.cross2d', lf.cross2d, pts - pts[0], pts[-1] - pts[0])
+    add('linear_fit.linear_fit_residuals', lf.linear_fit_residuals, x, y)
+    add('linear_fit.linear_fit_transform', lf.linear_fit_transform, x, y)
+    add('linear_fit.linear_fit_transform[vertical]', lf.linear_fit_transform, x, y, True)
+    add('linear_fit.linear_hv_residuals', lf.linear_hv_residuals, x, y)
+    add('linear_fit.linear_r2', lf.linear_r2, x, y, coef)
+    add('linear_fit.linear_residuals', lf.linear_residuals, x, y, coef)
+    add('linear_fit.linear_transform', lf.linear_transform, x, coef)
+    for nm in ('rmse', 'rmsle', 'rmspe', 'rpd', 'smape'):
+        add('linear_fit.' + nm, getattr(lf, nm), x, y, coef)
+    if n >= 6:
+        add('lmethod.compute_error', lm.compute_error, x, y, 3, n)
+    add('zmethod.knees2', zm.knees2, pts)
+    add('zmethod.map_index', zm.map_index, x, x[[1, 3]])
+    add('postprocessing.add_points_even[no-extremes]', pp.add_points_even, pts, red, kpos, removed, 0.05, 0.05, False)
+    add('kneedle.knee[t=0]', kn.knee, pts, 0.0)
     # option sweep: every member of every Enum-valued option (metric, distance, order, fit, refinement, strategy, ranking mode, R2 kind, …)
     import enum, inspect
     extra = []
@@ -165,6 +190,14 @@ def registry(rng, srng=None):
         except (TypeError, ValueError):
             continue
         params = list(sig.parameters)
+        # Enum members passed POSITIONALLY in the sample call (compute_global_cost(…, Metrics.smape), smooth_ranking(…, linear), …)
+        for ai, av in enumerate(args):
+            if isinstance(av, enum.Enum):
+                for member in type(av):
+                    if member is not av:
+                        a2 = list(args)
+                        a2[ai] = member
+                        extra.append((f'{name}[arg{ai}={member.name}]', f, a2, dict(kw)))
         for pn, prm in sig.parameters.items():
             if isinstance(prm.default, enum.Enum) and pn not in kw and params.index(pn) >= len(args):
                 for member in type(prm.default):
